@@ -106,7 +106,7 @@ theorem be64_inj {a b : Nat} (h : be64 a = be64 b) : a = b := by
   simp only [be64, List.cons.injEq, and_true] at h
   omega
 
-/-- `be64` is what `binary.BigEndian.PutUint64` writes: for `n < 2^64` every entry is a byte -/
+/-- `be64` is what `binary.Write` of a big-endian `uint64` writes: for `n < 2^64` every entry is a byte -/
 theorem be64_bytes (n : Nat) (h : n < 18446744073709551616) : ∀ b ∈ be64 n, b < 256 := by
   intro b hb
   simp only [be64, List.mem_cons, List.not_mem_nil, or_false] at hb
